@@ -29,6 +29,9 @@ use super::{
     ShadowRequest, MAX_CHANNEL_CAPACITY, MAX_SCHEDULE_ITERATIONS,
 };
 
+#[cfg(feature = "verif-hooks")]
+pub(crate) mod verif;
+
 #[derive(Error, Debug)]
 pub enum RouterError {
     #[error("Receive error = {0}")]
@@ -102,6 +105,9 @@ pub struct Router {
     shared_subscriptions: HashMap<String, SharedGroup>,
     /// Will messages per client_id
     last_wills: HashMap<String, (LastWill, Option<LastWillProperties>)>,
+    /// verification hook: return from `run_inner` instead of blocking on an empty channel
+    #[cfg(feature = "verif-hooks")]
+    verif_nonblocking: bool,
 }
 
 impl Router {
@@ -143,6 +149,8 @@ impl Router {
             cache: Some(VecDeque::with_capacity(MAX_CHANNEL_CAPACITY)),
             shared_subscriptions: HashMap::new(),
             last_wills: HashMap::new(),
+            #[cfg(feature = "verif-hooks")]
+            verif_nonblocking: false,
         }
     }
 
@@ -196,6 +204,10 @@ impl Router {
         // Block on incoming events if there are no ready connections for consumption
         if self.consume().is_none() {
             // trace!("{}:: {:20} {:20} {:?}", self.id, "", "done-await", self.readyqueue);
+            #[cfg(feature = "verif-hooks")]
+            if self.verif_nonblocking && self.router_rx.is_empty() {
+                return Err(RouterError::TryRecv(TryRecvError::Empty));
+            }
             let (id, data) = self.router_rx.recv()?;
             self.events(id, data);
         }
